@@ -7,7 +7,9 @@
 
    JitterTicker.  [accepts_history n evs] (= [check_ticker (n, evs)]) runs the generic matcher on the
    GUIDED relation [mstep] over pairs (state, ticks still to be received) with the enumeration
-   [tau_labels], in which the oracle of rand.Int63n is fixed to 0.
+   [tau_labels], in which the oracle of the two rand draws is fixed to 0 (sign 1, magnitude jitter-1: the
+   smallest offset -jitter, hence the earliest deadline); when the timers fire is then decided by the
+   recorded tick timestamps ([mstep]).
      1. SOUND, unconditionally ([ticker_accepts_sound], [ticker_check_sound],
         [ticker_first_rejected_sound]): every accepted history is the visible trace of a run of the
         UNREDUCED model [step] from [tinit n].  (Projection of a run of [mstep] by
@@ -17,20 +19,21 @@
         ([ticker_converged], executable): [ticker_guided_complete], [ticker_guided_reject_genuine],
         [ticker_guided_iff].  The matcher computes exactly the same thing on [mstep] and on [mstep0]
         because it only ever applies the relation to the enumerated labels (Part 0, [accepts_sx]).
-     3. Completeness with respect to the UNREDUCED model is FALSE as stated:
-        [ticker_unreduced_completeness_refuted] exhibits a history that is the trace of a run of [step]
-        and that the matcher rejects (with converged closures).  The culprit is the reduction "oracle
-        r = 0 gives the earliest deadline": [next_delay] computes wrap64 (d + (r - j)), which is NOT
-        monotone in r when d + jitter > max_i64 (d = max_i64, jitter = 2, r = 3 wraps to -2^63: the
-        timer is due at once; with r = 0 it is due in 292 years).  Such arguments are outside the
-        documented range used by the spacing property (d + jitter <= max_i64, [spaced]) and are never
-        generated by props/xtime_common.py (its only huge pair has 2*jitter = 2^63, which panics).
-     4. Reduction (a), "the oracle can be fixed to 0", is PROVED for histories all of whose New/Reset
-        arguments are [oracle_safe] ([hist_safe]; implied by  jitter <= 0  [oracle_safe_no_jitter]  or
-        0 <= jitter < d, d + jitter <= max_i64  [oracle_safe_documented]): [step_zero_sim] is a
-        simulation for the order [earlier s0 s] ("equal except that every timer's tm_dl is not later in
-        s0": TFire is the only label reading tm_dl and it is monotone), and [ticker_oracle_zero] turns
-        every run of [step] into a run with the same trace in which every oracle is 0.
+     3. Reduction (a), "the oracle can be fixed to 0", is PROVED for histories all of whose New/Reset
+        arguments are [oracle_safe] ([hist_safe]).  For the code in /repo (offset drawn as magnitude and
+        sign, added with saturation) EVERY pair of int64 arguments is oracle-safe: the delay is exactly
+        min (d + (r - jitter), MaxInt64), monotone in the outcome number r - [oracle_safe_int64] (any
+        int64 d, 0 < jitter, d - jitter >= MinInt64; covers every argument pair that passes or fails the
+        argument check), [oracle_safe_documented] (0 <= jitter < d <= MaxInt64, no side condition on
+        d + jitter any more), [oracle_safe_no_jitter] (jitter <= 0).  [step_zero_sim] is a simulation for
+        the order [earlier s0 s] ("equal except that every timer's tm_dl is not later in s0": TFire is the
+        only label reading tm_dl and it is monotone), and [ticker_oracle_zero] turns every run of [step]
+        into a run with the same trace in which every oracle is 0.
+     4. Completeness with respect to the UNREDUCED model is still FALSE as a statement over the model's
+        labels, which range over Z: [ticker_unreduced_completeness_refuted] uses d = 2^63 + 1, which is
+        not an int64 (outcome 1 wraps d - 1 = 2^63 to -2^63, outcome 0 gives MaxInt64).  No pair of int64
+        arguments is affected (3.); with the ORIGINAL code the same failure occurred for the int64 pair
+        (MaxInt64, 2) ([ticker_orig_not_oracle_safe]).
      5. NOT proved (and what would be needed): [guidance_complete] - every run of [step] with oracles 0
         whose trace evs has the recorded format has a counterpart in [mstep0] from
         (tinit n, recv_values evs).  [reduction_from_guidance] and [ticker_reject_genuine_if_reduction]
@@ -809,21 +812,25 @@ Qed.
 
 (* ---- completeness with respect to the UNREDUCED model ---- *)
 
-(* REFUTED as a general claim.  NewJitterTicker(d = max_i64, jitter = 2) is accepted by the argument
-   check (0 < d, jitter < d); rand.Int63n(4) may return 3; next = d + 3 - 2 overflows int64 to -2^63, so
-   time.AfterFunc fires at once and a tick stamped 5 ns is received.  The model [step] has this run
-   (oracle 3); the matcher, which only tries oracle 0 (next = max_i64 - 2), rejects the history. *)
+(* REFUTED as a general claim over the model's labels (which range over Z) - but only by a d that is NOT an
+   int64: for d = 2^63 + 1, jitter = 2 the outcome number 1 (magnitude 0, sign 1: offset -1) computes
+   wrap64 (2^63) = -2^63, so the timer fires at once and a tick stamped 5 ns is received; the matcher, which
+   only tries outcome 0 (offset -2: wrap64 (2^63 - 1) = MaxInt64), rejects the history.  For int64 arguments
+   the reduction is sound: [oracle_safe_int64]. *)
+Definition ovf_d : Z := 9223372036854775809.      (* 2^63 + 1 : not an int64 *)
 Definition ovf_hist : list lab :=
-  [LTick 0; LCall 0 (ONew max_i64 2); LRet 0 (ONew max_i64 2) RNormal; LTick 5; LRecv 5].
+  [LTick 0; LCall 0 (ONew ovf_d 2); LRet 0 (ONew ovf_d 2) RNormal; LTick 5; LRecv 5].
 Definition ovf_run : list lab :=
-  [LTick 0; LCall 0 (ONew max_i64 2); TValidate 0; TLock 0; TBodySched 0 3; TUnlock 0;
-   LRet 0 (ONew max_i64 2) RNormal; LTick 5; TFire 0; TCbLock 0; TCbSend 0; LRecv 5].
+  [LTick 0; LCall 0 (ONew ovf_d 2); TValidate 0; TLock 0; TBodySched 0 1; TUnlock 0;
+   LRet 0 (ONew ovf_d 2) RNormal; LTick 5; TFire 0; TCbLock 0; TCbSend 0; LRecv 5].
 
 Theorem ticker_unreduced_completeness_refuted :
+  max_i64 < ovf_d /\
   exists n evs,
     ticker_converged n evs = true /\ accepts_history n evs = false /\
     exists ls s, run step (tinit n) ls = Some s /\ ticker_trace ls = evs.
 Proof.
+  split; [reflexivity|].
   exists 1%nat, ovf_hist. split; [vm_compute; reflexivity|]. split; [vm_compute; reflexivity|].
   exists ovf_run. eexists. split; vm_compute; reflexivity.
 Qed.
@@ -831,39 +838,48 @@ Qed.
 (* The arguments for which oracle 0 does give the earliest deadline: whatever delay schedule() can
    compute with a valid oracle r, it can compute a delay that is not longer with oracle 0. *)
 Definition oracle_safe (d j : Z) : Prop :=
-  forall r nx, r_valid true j r = true -> next_delay true d j r = Some nx ->
-    exists nx0, next_delay true d j 0 = Some nx0 /\ nx0 <= nx.
+  forall r nx, r_valid VCur j r = true -> next_delay VCur d j r = Some nx ->
+    exists nx0, next_delay VCur d j 0 = Some nx0 /\ nx0 <= nx.
 
 Lemma oracle_safe_no_jitter d j : j <= 0 -> oracle_safe d j.
 Proof.
-  intros Hj r nx _ Hn. unfold next_delay, calls_rand in *.
-  assert (E : (0 <? j) = false) by (apply Z.ltb_ge; exact Hj).
-  rewrite E in *. simpl in *. exists nx. split; [exact Hn | lia].
+  intros Hj r nx _ Hn. rewrite next_delay_no_jitter in Hn by exact Hj. injection Hn as <-.
+  exists d. split; [apply next_delay_no_jitter; exact Hj | lia].
 Qed.
 
-(* the documented range of the spacing property (see [spaced]) *)
-Lemma oracle_safe_documented d j : 0 <= j < d -> d + j <= max_i64 -> oracle_safe d j.
+(* every pair of int64 arguments with jitter > 0 whose difference is an int64 (in particular every pair
+   with d >= 0 or jitter < d: all documented pairs, and the pairs rejected by the argument check) *)
+Lemma oracle_safe_int64 d j :
+  0 < j <= max_i64 -> - 9223372036854775808 <= d - j -> d <= max_i64 -> oracle_safe d j.
 Proof.
-  intros Hj Hd r nx Hv Hn. unfold max_i64 in Hd.
-  destruct (Z.eq_dec j 0) as [->|Hj0]; [apply (oracle_safe_no_jitter d 0 (Z.le_refl 0) r nx Hv Hn)|].
-  assert (Hra : rand_arg j = 2 * j) by (unfold rand_arg; apply wrap64_small; unfold max_i64; lia).
-  unfold r_valid, next_delay, calls_rand in *. rewrite Hra in *.
-  assert (E1 : (0 <? j) = true) by (apply Z.ltb_lt; lia).
-  assert (E2 : (0 <? 2 * j) = true) by (apply Z.ltb_lt; lia).
-  assert (E3 : (2 * j <=? 0) = false) by (apply Z.leb_gt; lia).
-  rewrite E1, E2 in Hv. cbn [negb orb andb] in Hv. apply andb_true_iff in Hv. destruct Hv as [Hr0 Hr1].
-  apply Z.leb_le in Hr0. apply Z.ltb_lt in Hr1.
-  rewrite E1, E3 in Hn. cbn [negb orb] in Hn. injection Hn as <-.
-  rewrite E1, E3. cbn [negb orb].
-  exists (wrap64 (d + (0 - j))). split; [reflexivity|].
-  rewrite (wrap64_small (d + (0 - j))) by (unfold max_i64; lia).
-  rewrite (wrap64_small (d + (r - j))) by (unfold max_i64; lia). lia.
+  intros Hj Hlo Hd r nx Hv Hn.
+  pose proof (r_valid_cur_pos j r (proj1 Hj) Hv) as Hr.
+  rewrite next_delay_exact in Hn by assumption. injection Hn as <-.
+  exists (Z.min (d + (0 - j)) max_i64). split; [apply next_delay_exact; try assumption; lia | lia].
 Qed.
 
-Example oracle_unsafe_overflow : ~ oracle_safe max_i64 2.
+(* the documented range of the spacing property (see [spaced]): ALL of it *)
+Lemma oracle_safe_documented d j : 0 <= j < d -> d <= max_i64 -> oracle_safe d j.
 Proof.
-  intros H. destruct (H 3 (wrap64 (max_i64 + (3 - 2))) eq_refl eq_refl) as [nx0 [E Hle]].
+  intros Hj Hd. destruct (Z.eq_dec j 0) as [->|Hj0]; [apply oracle_safe_no_jitter; lia|].
+  apply oracle_safe_int64; unfold max_i64 in *; lia.
+Qed.
+
+Example oracle_unsafe_overflow : ~ oracle_safe ovf_d 2.
+Proof.
+  intros H. destruct (H 1 (- 9223372036854775808) eq_refl eq_refl) as [nx0 [E Hle]].
   vm_compute in E. injection E as <-. vm_compute in Hle. apply Hle. reflexivity.
+Qed.
+
+(* with the ORIGINAL computation the reduction failed for a pair of int64 arguments: d = MaxInt64, jitter = 2,
+   rand.Int63n(4) = 3 wraps d + 1 to -2^63, while oracle 0 gives MaxInt64 - 2 *)
+Example ticker_orig_not_oracle_safe :
+  r_valid VOrig 2 3 = true /\ next_delay VOrig max_i64 2 3 = Some (- 9223372036854775808)
+  /\ next_delay VOrig max_i64 2 0 = Some (max_i64 - 2)
+  /\ oracle_safe max_i64 2.
+Proof.
+  split; [reflexivity|]. split; [reflexivity|]. split; [reflexivity|].
+  apply oracle_safe_documented; unfold max_i64; lia.
 Qed.
 
 Definition hist_safe (evs : list lab) : Prop :=
@@ -951,6 +967,33 @@ Example ticker_ex_rejects2 :
   accepts_history 1 ticker_ex_bad2 = false /\ ticker_converged 1 ticker_ex_bad2 = true.
 Proof. vm_compute. split; reflexivity. Qed.
 
+(* huge documented arguments (the ORIGINAL code panicked on the first and could tick at once on the third):
+   NewJitterTicker(2^62+1, 2^62) returns normally and ticks 40 ns / 90 ns later are accepted (the smallest delay
+   is d - jitter = 1 ns); a recorded panic of that call is rejected; a tick 7 ns after
+   NewJitterTicker(MaxInt64, 2^61) is rejected (the smallest delay is MaxInt64 - 2^61) *)
+Definition ticker_ex_huge : list lab :=
+  [LTick 0; LCall 0 (ONew huge_d huge_j); LRet 0 (ONew huge_d huge_j) RNormal; LTick 40; LRecv 40;
+   LTick 90; LRecv 90; LTick 100; LCall 0 OStop; LRet 0 OStop RNormal].
+Definition ticker_ex_huge_panic : list lab :=
+  [LTick 0; LCall 0 (ONew huge_d huge_j); LRet 0 (ONew huge_d huge_j) RPanic].
+Definition ticker_ex_huge_early : list lab :=
+  [LTick 0; LCall 0 (ONew max_i64 p61); LRet 0 (ONew max_i64 p61) RNormal; LTick 7; LRecv 7].
+
+Example ticker_ex_huge_checks :
+  accepts_history 1 ticker_ex_huge = true /\ ticker_converged 1 ticker_ex_huge = true
+  /\ accepts_history 1 ticker_ex_huge_panic = false /\ ticker_converged 1 ticker_ex_huge_panic = true
+  /\ accepts_history 1 ticker_ex_huge_early = false /\ ticker_converged 1 ticker_ex_huge_early = true
+  /\ check_ticker_old (1%nat, ticker_ex_huge_panic) = true
+  /\ hist_safe ticker_ex_huge /\ hist_safe ticker_ex_huge_early.
+Proof.
+  do 7 (split; [vm_compute; reflexivity|]).
+  assert (H1 : oracle_safe huge_d huge_j) by (apply oracle_safe_documented; unfold max_i64, huge_d, huge_j; lia).
+  assert (H2 : oracle_safe max_i64 p61) by (apply oracle_safe_documented; unfold max_i64, p61; lia).
+  split; intros th d j [Hin|Hin]; simpl in Hin;
+    repeat (destruct Hin as [Hin|Hin]; [try discriminate Hin; injection Hin as <- <- <-; assumption|]);
+    destruct Hin.
+Qed.
+
 Example oracle_safe_example : oracle_safe 100 10 /\ oracle_safe 50 0 /\ hist_safe ticker_ex_good.
 Proof.
   assert (H1 : oracle_safe 100 10) by (apply oracle_safe_documented; unfold max_i64; lia).
@@ -962,7 +1005,7 @@ Proof.
 Qed.
 
 (* ====================================================================== *)
-(* Part 3: reduction (a) - the oracle of rand.Int63n can be fixed to 0      *)
+(* Part 3: reduction (a) - the oracle of the rand draws can be fixed to 0   *)
 (* ====================================================================== *)
 
 (* [earlier s0 s]: s0 is s except that every timer's deadline is not later in s0.  Every label enabled
@@ -1053,12 +1096,12 @@ Qed.
 
 (* schedule with oracle 0 from the earlier state *)
 Lemma schedule_earlier s tms0 r s2 :
-  Forall2 tle tms0 (timers s) -> oracle_safe (fd s) (fj s) -> r_valid true (fj s) r = true ->
-  schedule true s r = Some s2 ->
-  exists tms2, schedule true (set_timers s tms0) 0 = Some (set_timers s2 tms2) /\ Forall2 tle tms2 (timers s2).
+  Forall2 tle tms0 (timers s) -> oracle_safe (fd s) (fj s) -> r_valid VCur (fj s) r = true ->
+  schedule VCur s r = Some s2 ->
+  exists tms2, schedule VCur (set_timers s tms0) 0 = Some (set_timers s2 tms2) /\ Forall2 tle tms2 (timers s2).
 Proof.
   intros HF Hsafe Hv Hs. unfold schedule in *. cbn [fd fj tmr timers set_timers now gen] in *.
-  destruct (next_delay true (fd s) (fj s) r) as [nx|] eqn:En; [|discriminate Hs].
+  destruct (next_delay VCur (fd s) (fj s) r) as [nx|] eqn:En; [|discriminate Hs].
   destruct (Hsafe r nx Hv En) as [nx0 [E0 Hle]]. rewrite E0.
   inversion Hs; subst s2; clear Hs.
   pose proof (F2_stop_opt tms0 (timers s) (tmr s) HF) as HF1.
@@ -1069,19 +1112,14 @@ Proof.
 Qed.
 
 Lemma schedule_none_earlier s tms0 r :
-  r_valid true (fj s) r = true ->
-  schedule true s r = None -> schedule true (set_timers s tms0) 0 = None.
-Proof.
-  intros Hv Hs. unfold schedule in *. cbn [fd fj tmr timers set_timers now gen] in *.
-  destruct (next_delay true (fd s) (fj s) r) as [nx|] eqn:En; [discriminate Hs|].
-  unfold next_delay in *. destruct (calls_rand true (fj s)); [|discriminate En].
-  destruct (rand_arg (fj s) <=? 0); [reflexivity | discriminate En].
-Qed.
+  r_valid VCur (fj s) r = true ->
+  schedule VCur s r = None -> schedule VCur (set_timers s tms0) 0 = None.
+Proof. intros _ Hs. exfalso. exact (schedule_cur_some s r Hs). Qed.
 
-Lemma r_valid_zero j r : r_valid true j r = true -> r_valid true j 0 = true.
+Lemma r_valid_zero j r : r_valid VCur j r = true -> r_valid VCur j 0 = true.
 Proof.
-  unfold r_valid. destruct (calls_rand true j && (0 <? rand_arg j)) eqn:E; [|reflexivity].
-  intros _. apply andb_true_iff in E. destruct E as [_ E]. rewrite E. reflexivity.
+  cbn [r_valid]. destruct (0 <? j) eqn:E; [|reflexivity].
+  intros _. apply Z.ltb_lt in E. apply andb_true_iff. split; [reflexivity | apply Z.ltb_lt; lia].
 Qed.
 
 Definition op_safe (o : op) : Prop :=
@@ -1170,10 +1208,10 @@ Proof.
   destruct (nth_error (thr s) th) as [p|]; [|discriminate H].
   destruct p as [|o|o|o|o|o|o]; try discriminate H.
   destruct o as [d j|d j|]; try discriminate H; cbn [op_safe] in Hsafe;
-    (destruct (r_valid true j r) eqn:Hv; [|discriminate H]);
+    (destruct (r_valid VCur j r) eqn:Hv; [|discriminate H]);
     rewrite (r_valid_zero j r Hv); cbv zeta in *;
     change (set_fj (set_fd (set_timers s tms0) d) j) with (set_timers (set_fj (set_fd s d) j) tms0);
-    (destruct (schedule true (set_fj (set_fd s d) j) r) as [s2|] eqn:Es;
+    (destruct (schedule VCur (set_fj (set_fd s d) j) r) as [s2|] eqn:Es;
      [ destruct (schedule_earlier (set_fj (set_fd s d) j) tms0 r s2 HF Hsafe Hv Es) as [tms2 [Es0 HF2]];
        rewrite Es0; inversion H; subst s'; clear H;
        eexists; split; [reflexivity | cbn; exact HF2]
@@ -1191,9 +1229,9 @@ Proof.
   destruct (F2_nth _ _ HF k tm Ek) as [t0 [E0 Hle]]. rewrite E0.
   destruct Hle as [Hg [Hd [Hj [Hs [Hc Hl]]]]]. rewrite Hc.
   destruct (tm_cb tm) eqn:Ecb; try discriminate H.
-  destruct (r_valid true (fj s) r) eqn:Hv; [|discriminate H].
+  destruct (r_valid VCur (fj s) r) eqn:Hv; [|discriminate H].
   rewrite (r_valid_zero (fj s) r Hv).
-  destruct (schedule true s r) as [s2|] eqn:Es.
+  destruct (schedule VCur s r) as [s2|] eqn:Es.
   - destruct (schedule_earlier s tms0 r s2 HF Hsafe Hv Es) as [tms2 [Es0 HF2]].
     rewrite Es0. cbn [timers set_timers].
     destruct (nth_error (timers s2) k) as [tm2|] eqn:Ek2; [|discriminate H].
@@ -1398,6 +1436,7 @@ Print Assumptions ticker_guided_complete.
 Print Assumptions ticker_guided_reject_genuine.
 Print Assumptions ticker_guided_iff.
 Print Assumptions ticker_unreduced_completeness_refuted.
+Print Assumptions oracle_safe_int64.
 Print Assumptions oracle_safe_documented.
 Print Assumptions ticker_reduction_fails_on_overflow.
 Print Assumptions ticker_reject_genuine_if_reduction.
